@@ -350,6 +350,57 @@ func c13Paths(c *Ctx, r *gen.Rand, te *typeEntry, bad []byte, cleanRows [][]parq
 	}
 	chunk := f.RowGroups()[t.rg].ColumnChunks()[t.col]
 	pagesPath("pages_sequential", chunk.Pages(), -1, 0)
+	// (c') the reader is used again after it reported the corruption: a seek back into the corrupted
+	// page, or into the page before it, must not make the next reads skip the corrupted page silently
+	if !t.isDict {
+		c.guard("c13.panic", keysFor("retry_after_error"), func() {
+			pages := chunk.Pages()
+			defer pages.Close()
+			var rowsSeen int64
+			for {
+				p, err := pages.ReadPage()
+				if err != nil {
+					break
+				}
+				rowsSeen += p.NumRows()
+				parquet.Release(p)
+			}
+			target := t.firstRow
+			if t.rows > 1 && r.Bool() {
+				target += int64(r.Intn(int(t.rows)))
+			}
+			if t.firstRow > 0 && r.P(40) {
+				target = t.firstRow - 1 // last row of the page before
+			}
+			if err := pages.SeekToRow(target); err != nil {
+				c.Obs("path_retry_after_error", 1)
+				return // refusing to go on after an error is fine
+			}
+			pos := target
+			for {
+				p, err := pages.ReadPage()
+				if err != nil {
+					expectCorrupted(c, "retry_after_error", kind, err, fmt.Sprintf("after the first error, seek(%d)", target))
+					return
+				}
+				nr := p.NumRows()
+				lo, hi := t.firstRow, t.firstRow+t.rows
+				if pos < hi && pos+nr > lo {
+					parquet.Release(p)
+					c.Fail("c13.data_delivered", keysFor("retry_after_error"), "after the corruption was reported once, SeekToRow(%d) and ReadPage returned a page for rows %d..%d although the page of rows %d..%d is corrupted", target, pos, pos+nr, lo, hi)
+					return
+				}
+				if pos >= hi {
+					parquet.Release(p)
+					c.Fail("c13.undetected", keysFor("retry_after_error"), "after the corruption was reported once, SeekToRow(%d) and reading on reached row %d: the corrupted page of rows %d..%d was skipped without an error", target, pos, lo, hi)
+					return
+				}
+				// a page wholly before the corrupted one: its first value must be the row asked for
+				pos += nr
+				parquet.Release(p)
+			}
+		})
+	}
 	// (d) seek into the corrupted page then read (not its first row when possible)
 	if !t.isDict {
 		k := t.firstRow
